@@ -41,6 +41,13 @@ def o_mod_dict_roundtrip(seq: str, npos: int, glob: bool, nint: int, amb: bool, 
     rebuilt = SF.add_mods(stripped, md)
     if rebuilt != s:
         return _fail(why="add_mods(strip_mods(s), get_mods(s)) != s", got=rebuilt, want=s)
+    # the same through pop_mods, and with the peptide given as a string
+    bare, md2 = SF.pop_mods(a)
+    if bare != seq or SF.add_mods(bare, md2) != s:
+        return _fail(why="add_mods(*pop_mods(a)) != s", got=(bare, SF.add_mods(bare, md2)), want=s)
+    bare3, md3 = SF.pop_mods(s)
+    if bare3 != seq or SF.add_mods(bare3, md3) != s or SF.add_mods(SF.strip_mods(s), SF.get_mods(s)) != s:
+        return _fail(why="string input: add_mods(strip_mods(s), get_mods(s)) != s", want=s)
     if D.dump(a) != before:
         return _fail(why="get_mods/strip_mods/add_mods changed the annotation")
     b = create_annotation(**a.dict())
